@@ -4,8 +4,10 @@
  * Two runs: same context, message, nonce function, nonce data, recid/s2c arguments (public);
  * INDEPENDENT secret keys, each arbitrary 32 bytes (valid, zero, or >= n).  What the library declassifies
  * is modelled as "equal in both runs":
- *   - the nonce bytes and the return value of the nonce function for attempt k  (so is_nonce_valid,
- *     which the code declassifies, is equal): harness tables g_nonce[k], g_nonce_ret[k];
+ *   - the return value of the nonce function for attempt k (g_nonce_ret[k]) and the validity bit
+ *     is_nonce_valid that the code declassifies.  The nonce BYTES are secret: each run has its own
+ *     g_nonce[run][k]; the only relation assumed between them is equal secp256k1_scalar_set_b32_seckey
+ *     validity (audit 2 #1);
  *   - the verdict of secp256k1_ecdsa_sig_sign for attempt k (declassified `ret`): g_sign_ok[k];
  *   - in the sign-to-contract path: nonce_p.infinity == 0 and the verdict of ec_commit_seckey: g_commit_ok[k].
  * Everything else those callees produce (r, s, recid, the tweaked nonce, the nonce point) is arbitrary
@@ -22,7 +24,7 @@
 #include "ct.h"
 #define MAX_ATT 2
 
-unsigned char g_nonce[MAX_ATT][32]; int g_nonce_ret[MAX_ATT], g_sign_ok[MAX_ATT], g_commit_ok[MAX_ATT];
+unsigned char g_nonce[2][MAX_ATT][32]; int g_nonce_ret[MAX_ATT], g_sign_ok[MAX_ATT], g_commit_ok[MAX_ATT];
 unsigned g_nonce_calls, g_nonce_calls1, g_sign_calls, g_commit_calls;
 unsigned char g_att_ovf;
 secp256k1_scalar nondet_scalar(void); secp256k1_gej nondet_gej(void); secp256k1_ge nondet_ge(void);
@@ -30,7 +32,7 @@ secp256k1_scalar nondet_scalar(void); secp256k1_gej nondet_gej(void); secp256k1_
 static int nonce_common(unsigned char *nonce32, unsigned int counter) {
     unsigned k = counter < MAX_ATT ? counter : MAX_ATT - 1;
     g_att_ovf |= (unsigned char)(counter >= MAX_ATT);
-    memcpy(nonce32, g_nonce[k], 32);
+    memcpy(nonce32, g_nonce[ct_mode & 1][k], 32);   /* ct_mode: 0 in run 1, 1 in run 2 */
     g_nonce_calls++;
     return g_nonce_ret[k];
 }
@@ -65,12 +67,13 @@ int ct_stub_commit_seckey(const secp256k1_hash_ctx *hash_ctx, secp256k1_scalar *
 }
 
 typedef struct { unsigned char key[32]; secp256k1_scalar r, s; int recid; secp256k1_ecdsa_s2c_opening opening; secp256k1_sha256 sha; int ret; } signsec;
-typedef struct { unsigned char n[MAX_ATT][32]; int nr[MAX_ATT], so[MAX_ATT], co[MAX_ATT]; } pubtab;
+typedef struct { int nr[MAX_ATT], so[MAX_ATT], co[MAX_ATT]; } pubtab;
+typedef struct { unsigned char n[MAX_ATT][32]; } noncetab;
 
 void h_ct_sign_inner(void) {
     secp256k1_context ctx;
     INPUT(signsec, k1); INPUT(signsec, k2);
-    INPUT(pubtab, tab);
+    INPUT(pubtab, tab); INPUT(noncetab, nt1); INPUT(noncetab, nt2);
     INPUT_ARR(unsigned char, si_msg, 32); INPUT_ARR(unsigned char, si_data, 32);
     INPUT(_Bool, use_fn); INPUT(_Bool, use_recid); INPUT(_Bool, use_s2c); INPUT(_Bool, use_opening);
     secp256k1_scalar t; int last_valid, i;
@@ -78,11 +81,13 @@ void h_ct_sign_inner(void) {
     CT_CANARY()
     verif_ctx_init(&ctx);
     for (i = 0; i < MAX_ATT; i++) {
-        memcpy(g_nonce[i], tab.n[i], 32);
+        memcpy(g_nonce[0][i], nt1.n[i], 32); memcpy(g_nonce[1][i], nt2.n[i], 32);
+        /* the declassified bit is_nonce_valid is equal in both runs; nothing else relates the two nonces */
+        __CPROVER_assume(secp256k1_scalar_set_b32_seckey(&t, g_nonce[0][i]) == secp256k1_scalar_set_b32_seckey(&t, g_nonce[1][i]));
         g_nonce_ret[i] = tab.nr[i]; g_sign_ok[i] = (tab.so[i] != 0); g_commit_ok[i] = (tab.co[i] != 0);
     }
     /* bounded: the last allowed attempt ends the retry loop (nonce function fails, or valid nonce and every later verdict positive) */
-    last_valid = secp256k1_scalar_set_b32_seckey(&t, g_nonce[MAX_ATT - 1]);
+    last_valid = secp256k1_scalar_set_b32_seckey(&t, g_nonce[0][MAX_ATT - 1]);
     __CPROVER_assume(g_nonce_ret[MAX_ATT - 1] == 0 || (last_valid && g_sign_ok[MAX_ATT - 1] && g_sign_ok[0] && g_commit_ok[0]) || (last_valid && use_s2c && !g_commit_ok[MAX_ATT - 1] && !g_commit_ok[0]));
     __CPROVER_assume(!use_s2c || !use_fn);       /* the function's documented precondition (VERIFY_CHECK): s2c only with the default nonce function */
     fn = use_fn ? ct_user_nonce : NULL;
@@ -100,4 +105,35 @@ void h_ct_sign_inner(void) {
     if (k1.ret == 1 && k2.ret == 1 && !use_fn && g_nonce_calls1 == 2) REACH("sign_inner: two valid keys, built-in nonce function, second attempt");
     if (use_s2c && k1.ret == 1) REACH("sign_inner: sign-to-contract path succeeds");
     if (k1.ret == 0 && k2.ret == 0 && g_nonce_calls1 == 1 && g_nonce_ret[0] == 0) REACH("sign_inner: nonce function fails");
+    if (g_nonce[0][0][31] != g_nonce[1][0][31] && k1.ret == 1) REACH("sign_inner: the two runs use different nonce bytes");
+}
+
+/* ---- the two callees of sign_inner that had no unit of their own (audit 2 #12) ---- */
+typedef struct { secp256k1_scalar sec, msg, non, r, s; int recid, ret; secp256k1_ecmult_gen_context gctx; } sigsec;
+/* secp256k1_ecdsa_sig_sign: secret = key, nonce, message, blinding; ecmult_gen / ge_set_gej redirected to
+ * arbitrary-result stubs (own units: C06.ecmult_gen*, C06.ge_set_gej); scalar_inverse/mul/cond_negate real */
+void ct_stub_ge_set_gej_any(secp256k1_ge *r, secp256k1_gej *a) { (void)a; *r = nondet_ge(); r->infinity &= 1; }
+void h_ct_sig_sign(void) {
+    INPUT(sigsec, q1); INPUT(sigsec, q2); INPUT(_Bool, use_recid);
+    CT_CANARY()
+    CT2("C06 ecdsa_sig_sign: branch trace independent of key, nonce and message",
+        q1.ret = secp256k1_ecdsa_sig_sign(&q1.gctx, &q1.r, &q1.s, &q1.sec, &q1.msg, &q1.non, use_recid ? &q1.recid : NULL),
+        q2.ret = secp256k1_ecdsa_sig_sign(&q2.gctx, &q2.r, &q2.s, &q2.sec, &q2.msg, &q2.non, use_recid ? &q2.recid : NULL));
+    if (q1.sec.d[0] != q2.sec.d[0] && q1.non.d[0] != q2.non.d[0] && use_recid) REACH("sig_sign on different keys and nonces");
+}
+/* secp256k1_ec_commit_seckey: secret = the nonce scalar being tweaked and the point coordinates; public (and
+ * equal) = the point's infinity flag (declassified by the caller), the data length and the hash byte counter */
+typedef struct { secp256k1_scalar key; secp256k1_ge p; secp256k1_sha256 sha; unsigned char data[32]; int ret; } comsec;
+void h_ct_commit_seckey(void) {
+    INPUT(comsec, m1); INPUT(comsec, m2);
+    secp256k1_hash_ctx hc;
+    CT_CANARY()
+    hc.fn_sha256_compression = secp256k1_sha256_transform;
+    __CPROVER_assume((m1.p.infinity == 0 || m1.p.infinity == 1) && m1.p.infinity == m2.p.infinity);
+    m1.sha.bytes = 64; m2.sha.bytes = 64;   /* public: the s2c tagged midstates (the only callers' hash objects) have absorbed one block */
+    CT2("C06 ec_commit_seckey: branch trace independent of the tweaked secret, the point coordinates and the hash state",
+        m1.ret = secp256k1_ec_commit_seckey(&hc, &m1.key, &m1.p, &m1.sha, m1.data, 32),
+        m2.ret = secp256k1_ec_commit_seckey(&hc, &m2.key, &m2.p, &m2.sha, m2.data, 32));
+    if (!m1.p.infinity && m1.key.d[0] != m2.key.d[0]) REACH("ec_commit_seckey on different secrets");
+    if (m1.p.infinity) REACH("ec_commit_seckey on the point at infinity");
 }
